@@ -1,7 +1,7 @@
 #!/bin/bash
 # tools/seed_eval.sh <src-dir-with patch.diff+demo> <seeded-id> <property> <pkgdir-for-demo> [checks...]
 # 1. confirms in a scratch worktree: demo passes without the patch, fails with it, repo suite passes with it
-# 2. applies the patch to /repo, runs the given checks (quick), reverts
+# 2. runs the given checks (quick) against the patched worktree (VERIF_REPO); /repo is not touched
 # writes /verif/seeded/<seeded-id>/{patch.diff,demo_test.go,meta.json}
 set -u
 SRC=$1; SID=$2; PROP=$3; PKG=$4; shift 4; CHECKS="$@"
@@ -24,24 +24,24 @@ rm $WT/$PKG/zz_verif_demo_test.go
 ( cd $WT && go test -vet=off -count=1 ./... 2>&1 | grep -v MUTATION > /tmp/seed-$SID-suite.log ); 
 SUITE_FAILS=$(grep -E '^--- FAIL' /tmp/seed-$SID-suite.log | grep -v -E 'TestEOF|TestHasEOF|TestRead ' | wc -l)
 SUITE_FAIL_NAMES=$(grep -E '^--- FAIL' /tmp/seed-$SID-suite.log | awk '{print $3}' | paste -sd,)
-git -C /repo worktree remove --force $WT
 echo "demo on base rc=$DBASE (want 0), demo with patch rc=$DMUT (want !=0), suite extra fails=$SUITE_FAILS ($SUITE_FAIL_NAMES)"
 RES=""
 if [ -n "$CHECKS" ]; then
-  git -C /repo apply $DST/patch.diff || { echo "patch does not apply to /repo"; exit 2; }
+  # the patched worktree is what the checks build against (VERIF_REPO); /repo itself is not touched,
+  # evidence and replay files of these runs go to scratch directories
   for c in $CHECKS; do
-    ( cd /verif && timeout 1800 bin/check $c --tier quick > /tmp/seed-$SID-$c.log 2>&1 ); rc=$?
+    ( cd /verif && VERIF_REPO=$WT VERIF_EVID=/tmp/seed-$SID-evidence VERIF_REPLAYS=/tmp/seed-$SID-replays timeout 1800 bin/check $c --tier quick > /tmp/seed-$SID-$c.log 2>&1 ); rc=$?
     RES="$RES $c:rc=$rc"
     grep -E '^(VIOLATION|KNOWN-FINDING|MODEL-DRIFT|  sig)' /tmp/seed-$SID-$c.log | head -5
   done
-  git -C /repo checkout -- . 
-  # restore evidence from the unchanged tree later (caller reruns checks)
+  rm -rf /tmp/seed-$SID-evidence /tmp/seed-$SID-replays /verif/build/driver-*seedwt_$SID* /verif/harness/go.*seedwt_$SID*
 fi
+git -C /repo worktree remove --force $WT
 echo "checks:$RES"
 python3 - <<PY
 import json
 json.dump(dict(seeded_id="$SID", property="$PROP", demo_on_base_rc=$DBASE, demo_with_patch_rc=$DMUT,
   suite_unexpected_failures=$SUITE_FAILS, suite_failed_tests="$SUITE_FAIL_NAMES", checks_run="$RES".strip(),
-  ran="git worktree add; demo test in $PKG (base, patched); go test -vet=off -count=1 ./... (patched); git -C /repo apply; bin/check ... --tier quick; git -C /repo checkout -- ."),
+  ran="git worktree add; demo test in $PKG (base, patched); go test -vet=off -count=1 ./... (patched); VERIF_REPO=<patched worktree> bin/check ... --tier quick"),
   open("$DST/meta.json","w"), indent=1)
 PY
